@@ -26,6 +26,29 @@ def load_check(pid):
 
 
 def run_check(pid, tier, seed):
+    """scratch space of a run lives in one directory named after this
+    process and is removed when the run ends, whatever happened to the
+    workers; directories of runs whose process is gone are swept first"""
+    import shutil
+    import tempfile
+    base = "/dev/shm" if os.path.isdir("/dev/shm") else tempfile.gettempdir()
+    for d in os.listdir(base):
+        if d.startswith("verif_run_"):
+            try:
+                os.kill(int(d.split("_")[2]), 0)
+            except (ProcessLookupError, ValueError, IndexError):
+                shutil.rmtree(os.path.join(base, d), ignore_errors=True)
+            except PermissionError:
+                pass
+    scratch = tempfile.mkdtemp(prefix=f"verif_run_{os.getpid()}_", dir=base)
+    os.environ["VERIF_SCRATCH"] = scratch
+    try:
+        return _run_check(pid, tier, seed)
+    finally:
+        shutil.rmtree(scratch, ignore_errors=True)
+
+
+def _run_check(pid, tier, seed):
     chk = load_check(pid)
     ctx = {"repo": REPO, "seed": seed, "tier": tier}
     t0 = time.time()
